@@ -4,7 +4,7 @@ from __future__ import annotations
 
 import ast
 
-from sa.cfg import dominators, reachable, reaches, specialize
+from sa.cfg import all_paths_pass, dominators, find_path, fmt_path, reachable, reaches, specialize
 from sa.db import AnalysisError, bind_args, dotted, src, walk_local
 from sa.flow import defs_reaching, reaching_defs
 from sa.model import contains, enclosing, execute_impl_funcs
@@ -147,6 +147,17 @@ def run(ctx) -> None:
     rrs = db.func("runners._shared.validation.resolve_runtime_selected")
     ok = any(isinstance(n, ast.Assign) and isinstance(n.value, ast.ListComp) and "not in graph.outputs" in src(n.value) for n in walk_local(rrs.node)) and any(isinstance(n, ast.Raise) for n in walk_local(rrs.node))
     rep.add("C16.R3", f"{rrs.qname}:validated", ok, rrs.loc(), "a run-time selection naming anything but graph outputs is rejected" if ok else "run-time select names are no longer validated against graph.outputs (plain inputs could be selected)")
+    # the collectors take *any* explicit select that is not "**" as the names to return, so the
+    # validator must check every such select: no normal exit without the membership check
+    rcfg = ctx.cfg(rrs)
+    sp = (rrs.param_names + [""])[0]
+    checks = [n for n in rcfg.nodes if n.kind == "stmt" and isinstance(n.ast, ast.Assign) and isinstance(n.ast.value, ast.ListComp) and "not in graph.outputs" in src(n.ast.value)]
+    ok = bool(checks) and all_paths_pass(rcfg.entry, rcfg.exit_return, checks, specialize({f"{sp} is _UNSET_SELECT": False, f"{sp} == '**'": False}, rcfg))
+    wit = ""
+    if checks and not ok:
+        pth = find_path(rcfg.entry, rcfg.exit_return, avoid=set(checks), ef=specialize({f"{sp} is _UNSET_SELECT": False, f"{sp} == '**'": False}, rcfg))
+        wit = fmt_path(pth) if pth else ""
+    rep.add("C16.R3", f"{rrs.qname}:every-explicit-selection-validated", ok, rrs.loc(), "every explicit run-time selection other than '**' reaches the membership check" if ok else f"an explicit run-time selection can leave the validator unchecked (path {wit}) although the collectors then use it as the list of names to return: select=('x',) returns the plain input x", wit)
     for m in template_methods(db, "run"):
         cfg = ctx.cfg(m)
         dom = dominators(cfg.entry)
@@ -225,6 +236,7 @@ TA = "src/hypergraph/runners/_shared/template_async.py"
 CORE = "src/hypergraph/graph/core.py"
 CA = "src/hypergraph/runners/_shared/caching.py"
 VARIANTS = [
+    Variant("select-unexpected-type-unvalidated", "src/hypergraph/runners/_shared/validation.py", replace_once("    elif isinstance(select, Collection):", "    elif isinstance(select, (tuple, set)):\n        return None\n    elif isinstance(select, Collection):"), {"C16.R3"}),
     Variant("exhaustion-check-ignores-active-set", SR, replace_once("            if get_ready_nodes(graph, state, active_nodes=active_nodes):\n                raise ExecutionError(", "            if get_ready_nodes(graph, state):\n                raise ExecutionError("), {"C16.R1"}),
     Variant("async-scheduler-all-nodes", AR, replace_once("                ready_nodes = get_ready_nodes(graph, state, active_nodes=active_nodes)\n\n                if not ready_nodes:", "                ready_nodes = get_ready_nodes(graph, state, active_nodes=None)\n\n                if not ready_nodes:"), {"C16.R1"}),
     Variant("active-set-cached-on-graph", CORE, replace_once("    @property\n    def entrypoints_config(self)", "    @functools.cached_property\n    def active_node_names(self) -> set | None:\n        if self._entrypoints is None:\n            return None\n        return set(self._entrypoints)\n\n    @property\n    def entrypoints_config(self)"), {"C16.R1"}),
